@@ -59,7 +59,7 @@ class G:
         r=s.r
         if r.random()<0.4: m.append((('int',1),s.alg()))
         if r.random()<0.2: m.append((('int',2),('array',[r.choice([('int',1),('int',4),('int',0),('text',b'x'),('int',33)]) for _ in range(r.randint(1,3))]) if s.ok() else r.choice([('array',[]),('array',[('int',8)]),('int',1)])))
-        if r.random()<0.3: m.append((('int',3),r.choice([('int',0),('int',60),('int',11544),('text',b'a/b'),('text',b'text/plain')]) if s.ok() else r.choice([('int',1),('text',b''),('text',b'ab'),('text',b' a/b'),('text',b'a/b/c'),s.bstr()])))
+        if r.random()<0.3: m.append((('int',3),r.choice([('int',0),('int',60),('int',11544),('text',b'a/b'),('text',b'text/plain'),('text','€/b'.encode()),('text','éé/b'.encode()),('text','a/é'.encode()),('text','é€/€é'.encode())]) if s.ok() else r.choice([('int',1),('text',b''),('text',b'ab'),('text',b' a/b'),('text',b'a/b/c'),('text','é/é/é'.encode()),('text','€'.encode()),('text','/'.encode()),('text','é/'.encode()),s.bstr()])))
         if r.random()<0.4: m.append((('int',4),s.bstr(True) if s.ok() else r.choice([('bytes',b''),('int',1)])))
         iv=r.random()
         if iv<0.2: m.append((('int',5),s.bstr(True) if s.ok() else ('bytes',b'')))
